@@ -122,7 +122,8 @@ ELSE:
 # VarInt implementation
 
 cdef int decode_varint64(
-        char* buf, Py_ssize_t* read_pos, int64_t* out_value) except -1
+        char* buf, Py_ssize_t buf_len, Py_ssize_t* read_pos,
+        int64_t* out_value) except -1
 
 cdef int encode_varint64(
         char* buf, Py_ssize_t* write_pos, int64_t value) except -1
